@@ -135,7 +135,7 @@ func isWordStart(c byte) bool {
 }
 func isDigit(c byte) bool { return c >= '0' && c <= '9' }
 
-// lex is a plain SQL lexer over the whole text: strings 'x' ('' escapes), "x", `x`,
+// lex is a plain SQL lexer over the whole text: strings 'x' (” escapes), "x", `x`,
 // -- comments to end of line, /* */ comments (not nested), words, numbers,
 // single-character punctuation.  It labels every byte with its lexical state.
 func lex(text string) lexed {
